@@ -240,6 +240,52 @@ type MapV struct{ G *ssa.Global }
 
 func (m MapV) String() string { return "map:" + m.G.Name() }
 
+// CMapV is a map value whose entries are known (built from constants, e.g. a lookup table literal).
+type CMapV struct{ O *Obj }
+
+func (m CMapV) String() string { return fmt.Sprintf("cmap@obj%d", m.O.ID) }
+
+// MapC: content of a map with known entries.
+type MapC struct {
+	Keys []string // canonical keys: "i:<int>" or "s:<string>"
+	Vals []AV
+	Top  string
+}
+
+func (m MapC) String() string {
+	if m.Top != "" {
+		return "map:⊤(" + m.Top + ")"
+	}
+	p := make([]string, len(m.Keys))
+	for i := range m.Keys {
+		p[i] = m.Keys[i] + "→" + fmt.Sprint(m.Vals[i])
+	}
+	return "map{" + strings.Join(p, ", ") + "}"
+}
+
+func (m MapC) get(k string) (AV, bool) {
+	for i, x := range m.Keys {
+		if x == k {
+			return m.Vals[i], true
+		}
+	}
+	return nil, false
+}
+
+func mapKey(a AV) (string, bool) {
+	switch x := a.(type) {
+	case IntV:
+		if c, ok := x.Const(); ok {
+			return fmt.Sprintf("i:%d", c), true
+		}
+	case StrV:
+		if x.Kind == skConst {
+			return "s:" + x.S, true
+		}
+	}
+	return "", false
+}
+
 // NilV is the nil value of a map/slice/pointer/interface type.
 type NilV struct{ T string }
 
@@ -260,6 +306,8 @@ type BytesV struct {
 	Str      AV     // for conversions from a string
 	Obj      *Obj   // backing buffer object when the slice is a mutable buffer
 	Param    *ssa.Parameter
+	Pending  ssa.Instruction // the content is the bytes read by this call iff the call returned a nil error
+	PendSrc  string
 }
 
 func (b BytesV) String() string {
@@ -280,6 +328,9 @@ func (b BytesV) String() string {
 	} else {
 		sb.WriteString(b.Src)
 	}
+	if b.Pending != nil {
+		sb.WriteString(" (valid iff the read succeeded)")
+	}
 	if b.Obj != nil {
 		fmt.Fprintf(&sb, " @obj%d", b.Obj.ID)
 	}
@@ -298,6 +349,8 @@ const (
 	okArr   // make([]string, n)
 	okCell  // address-taken local (scalar/struct/array value)
 	okVec   // local array with per-element content (complit, varargs)
+	okMap   // map with known entries
+	okSB    // strings.Builder
 )
 
 // Obj is an abstract heap/stack object (one per allocation site and calling context).
@@ -557,3 +610,39 @@ func (c CellC) String() string {
 type VecC struct{ Elems []AV }
 
 func (v VecC) String() string { return "vec:" + VecV{v.Elems}.String() }
+
+
+// SBPart is one piece written to a strings.Builder; Cond (if set) is the branch condition
+// under which it was written, Pol its polarity.
+type SBPart struct {
+	V    AV
+	Cond *BoolV
+	Pol  bool
+	X    string // non-empty: stands for "content at the head of the iteration" of the named builder
+}
+
+// SBC: content of a strings.Builder.
+type SBC struct {
+	Parts []SBPart
+	Top   string
+}
+
+func (c SBC) String() string {
+	if c.Top != "" {
+		return "sb:⊤(" + c.Top + ")"
+	}
+	p := make([]string, len(c.Parts))
+	for i, x := range c.Parts {
+		switch {
+		case x.X != "":
+			p[i] = x.X
+		case x.Cond != nil:
+			p[i] = fmt.Sprintf("[%v if %v=%v]", x.V, *x.Cond, x.Pol)
+		default:
+			p[i] = fmt.Sprint(x.V)
+		}
+	}
+	return "sb(" + strings.Join(p, " ") + ")"
+}
+
+// SBV is a pointer to a strings.Builder object.
